@@ -4206,7 +4206,8 @@ def qr(a, mode='reduced', inner_labels=[None, None], cutoff=None, pos_diag_R=Fal
                 continue
         if pos_diag_R:
             r_diag = np.diag(r_block)
-            phase = r_diag / np.abs(r_diag)
+            r_abs = np.abs(r_diag)
+            phase = np.where(r_abs > 0, r_diag / np.where(r_abs > 0, r_abs, 1.0), 1.0)  # no phase for R_kk = 0
             K = len(r_diag)
             if K < q_block.shape[1]:
                 q_block[:, :K] *= phase[np.newaxis, :]
